@@ -82,7 +82,7 @@ theorem parseNumber_digits (ds : Bytes) (hne : ds ≠ []) (h : ∀ b ∈ ds, 48 
         subst h1 h2
         simp [a2]
         exact ⟨a2.2, by omega⟩
-    simp [parseNumber, k4, k5, a1, a3, hpi]
+    simp [parseNumber, numBody, k4, k5, a1, a3, hpi]
 
 theorem parseNumber_neg_digits (ds : Bytes) (hne : ds ≠ []) (h : ∀ b ∈ ds, 48 ≤ b ∧ b ≤ 57)
     (hv : digitsVal ds 0 ≤ 9223372036854775808) :
@@ -92,7 +92,7 @@ theorem parseNumber_neg_digits (ds : Bytes) (hne : ds ≠ []) (h : ∀ b ∈ ds,
     have hne' : ds.isEmpty = false := by cases ds <;> simp_all
     simp [parseInt64, hne', a2]
     omega
-  simp [parseNumber, a1, a3, hpi]
+  simp [parseNumber, numBody, a1, a3, hpi]
 
 /-- **Integer round trip**: for every 64-bit integer, the digits the writer emits are a token of
 regular bytes which `ScanToken` classifies as that integer. -/
